@@ -257,7 +257,7 @@ def tql2(n, d, e, V):
 
     for l in range(n):
         tst1 = max(tst1, abs(d[l]) + abs(e[l]))
-        m = 1
+        m = l
 
         while m < n:
             if abs(e[m]) <= eps*tst1:
